@@ -142,7 +142,7 @@ def array_ufunc(ufunc, method, inputs, kwargs):
             node = layout
             while isinstance(node, ak.layout.RegularArray):
                 shape.append(node.size)
-                node = node.content
+                node = node.content[: len(node) * node.size]
             if node.format.upper().startswith("M"):
                 nparray = ak.nplike.of(node).asarray(node.view_int64).view(node.format)
                 nparray = nparray.reshape(tuple(shape) + nparray.shape[1:])
